@@ -253,6 +253,9 @@ def c08(ctx):
                 # the fresh window starts after the first water-table observation: the recorded C16/C19
                 # finding (Variable series undefined before the first in-window observation), not a C08 matter
                 continue
+            if fresh.error and fresh.error[0] == "ZeroDivisionError" and not S.crop_params[sc["crop"]["name"]].get("YldWC"):
+                # the recorded C05/C16 finding (catalogue crops without YldWC: DryYield / 0), not a matter of C08
+                continue
             if fresh.error:
                 viols.append(V("C08", "fresh-run-raises-" + fresh.error[0], sc, "fresh single-season run raises", season=int(k), error=fresh.error))
                 continue
